@@ -14,12 +14,12 @@ import (
 
 var serveExplain = map[string]string{
 	"C02": "Structural necessary conditions in the server's per-connection loop, decided for every path of the loop by exhaustive exploration of a finite abstraction (booleans, nil-ness, rule event bits): (R1) a request with 'Expect: 100-continue' whose body was not read (ExpectHandler / ContinueHandler rejection) is answered with Connection: close and never followed by another iteration; (R2) on every path from the handler to the next iteration the code has established, on the request that was actually served (not on a ctx swapped in by the timeout path), that there is no connection-backed body stream or that requestStream.fullyRead() is true - otherwise the close decision is true; the stream object is only released after that. (R3) a length-limited reader over the connection that is handed to a parser which may stop early (multipart pre-parse) is drained before success is reported; (R4) the flag behind fullyRead() for chunked bodies is raised only after the trailer section was read and its error examined, in every function that sets it; (R-pool) the pooled stream object starts clean: each of its fields (chunk remainder, byte count, end-of-body flag, declared length ...) is assigned on every path of its release or of its acquire function, so a body is never decoded with the leftovers of another connection's body. (R-uar) after a call that gives the request stream held in a field back to its pool (releaseRequestStream, or a routine that passes the value on to it) no path reaches a use of a stream taken from that field before the field is assigned again - 'was the body read to its end' must be asked before the release. (R5) the serve loop gives the connection reader back between requests only on paths that found StreamRequestBody false or an error - a body stream reads the rest of the body through that reader. Not decided: the exact byte offset at which the next request starts for all inputs.",
-	"C10": "Structural necessary conditions of the keep-alive decision in the serve loop: (R1) the condition guarding SetConnectionClose depends (through phis, && / ||, and helper functions) on each documented source: DisableKeepalive, request and response Connection: close, MaxRequestsPerConn, CloseOnShutdown+stop, Expect/Continue rejection, unread streamed body; (R2) on every path: decision true => Connection: close is set on the response object that is written and no further iteration follows; decision false on a non-HTTP/1.1 request => Connection: keep-alive is set; (R2d) the loop is left after a written response, on the server's own decision, only when that response carried Connection: close; (R3) the decision does not read per-request bookkeeping from a ctx that was swapped in after the handler (timeout path); (R4) every comparison of a header value with the 'close' token - in the request and response head parsers and in the header setters - is made by a case-insensitive, list-aware matcher, never by an exact byte comparison, so 'Connection: Close' and 'keep-alive, close' count as close on both the server and the client side, and while a head is parsed a store to the close flag can only raise it (several Connection lines form one list); (R5) in the client transport the decision to pool a connection whose body is handed out as a stream is taken from a value computed when the response arrived - the boolean captured by the stream-close callback depends on the response's Connection: close - and not only from the caller-owned response header as it looks when the stream is closed. (R6) every routine the list scanner uses to trim a list member compares bytes with both optional-whitespace characters, SP and HTAB. Not decided: what the matcher accepts as token separators, client side reuse beyond the parsed flag.",
+	"C10": "Structural necessary conditions of the keep-alive decision in the serve loop: (R1) the condition guarding SetConnectionClose depends (through phis, && / ||, and helper functions) on each documented source: DisableKeepalive, request and response Connection: close, MaxRequestsPerConn, CloseOnShutdown+stop, Expect/Continue rejection, unread streamed body; (R2) on every path: decision true => Connection: close is set on the response object that is written and no further iteration follows; decision false on a non-HTTP/1.1 request => Connection: keep-alive is set; (R2d) the loop is left after a written response, on the server's own decision, only when that response carried Connection: close; (R3) the decision does not read per-request bookkeeping from a ctx that was swapped in after the handler (timeout path); (R4) every comparison of a header value with the 'close' token - in the request and response head parsers and in the header setters - is made by a case-insensitive, list-aware matcher, never by an exact byte comparison, so 'Connection: Close' and 'keep-alive, close' count as close on both the server and the client side, and while a head is parsed a store to the close flag can only raise it (several Connection lines form one list); (R5) in the client transport the decision to pool a connection whose body is handed out as a stream is taken from a value computed when the response arrived - the boolean captured by the stream-close callback depends on the response's Connection: close - and not only from the caller-owned response header as it looks when the stream is closed. (R6) every routine the list scanner uses to trim a list member compares bytes with both optional-whitespace characters, SP and HTAB. (R7) the close flag is assigned false only where, on every path to the return, the stored Connection entries are removed too (delAllArgs on the Connection name, or the reset of the whole list) - a setter of some other header cannot take back a close decision. Not decided: what the matcher accepts as token separators, client side reuse beyond the parsed flag.",
 	"C11": "Structural necessary conditions of 'no state leaks between requests': (E7) every leaf field of Request, Response, RequestHeader, ResponseHeader, URI, Args, Cookie and RequestCtx is assigned (or known nil, or reset through its pointee) on every path of the type's reset method including callees, or is in a table of reasoned exemptions (scratch buffers, configuration, self pointers) - a newly added field is a violation until reset or exempted; (R-loop) every variable of the serve loop that survives an iteration is re-assigned before it is read in a later iteration on every path, or the loop provably ends; (R-reset) every path from the handler to the next iteration passes Request.Reset and Response.Reset; (R-ctx) every field of RequestCtx that a handler can set through an exported method and that the serve loop reads (hijack handler, no-response switch, timeout response) is cleared, found zero, or left behind with a replaced ctx on every path to the next request - neither Request.Reset nor Response.Reset touches them; (R-loop-owned, R-pool, R-scratch) the reasons given for exemptions are checked too: a field the serve loop owns is assigned by it before every handler dispatch, every field of a pooled helper object is assigned by its release or its acquire function, and no function uses the old content or length of a scratch buffer. (R-slot) a recycled entry of a key/value array (query args, cookies - the arrays are only truncated by Reset) has its key and value stored before it is kept, directly or by a scanner whose producing returns store them on every path. Not decided: that getters return exactly what the current request sent.",
 	"C14": "The sequence of ConnState values the serve loop reports, decided on every path of the loop as an automaton: StateActive only follows New/Idle, StateIdle only follows Active, the handler and the response write happen in Active, an iteration that continues ends in Idle, and StateActive is only reported on a path on which a read of at least one byte succeeded; (R3) every function that runs the serve loop itself and reports states (ServeConn) reports StateNew before serving and, on every path to its return after StateNew was reported (served or turned away), exactly one terminal state - StateHijacked exactly when the loop returned errHijacked, StateClosed otherwise. (R4) at every call of the ConnState hook the connection argument is the enclosing function's own parameter, or a value taken out of it only through embedded fields that are assigned solely while their owner is private (so it is one stable value for the connection's life): all reports for one connection carry one value. (R5) a pooled per-IP connection wrapper is returned to its pool only by a routine that is not one of its own methods, and every call of that routine is dominated by a report of StateClosed for the same value - the hook knows a connection by its value, which must not be reused before its previous life was reported closed. Not decided: the reports made by the worker pool (C13.R2 decides its terminal action) and cross-goroutine ordering.",
-	"C15": "Structural necessary conditions of graceful shutdown inside the serve loop, on every path: the per-connection idle marker is zero while the handler runs (so Shutdown's idle closer cannot close a busy connection), it is set non-zero after the response before the connection waits for the next request, the stop flag is tested after every response, and (R5) a response that was written into the connection writer is flushed before the writer is dropped whenever the serve function ends with a nil result (shutdown, client stopped sending) - so no answered request loses its response on a graceful end; (R6) in the shutdown code the Done channel is closed only under a false 'already closed' flag and the flag is raised after it, and wherever the channel reference is dropped the flag is lowered again on every path - otherwise the next Serve/Shutdown cycle of the same Server never closes its requests' Done channels; (E1) the open-connection counter Shutdown waits on is exact: ServeConn, serveConnCounted, serveConnCleanup and Serve each have the net effect on it that their contract states, on every path - a connection that is counted down twice lets Shutdown return nil while a handler is still running. (R7) ShutdownWithContext takes Server.mu once, before any return, and gives it back only through a deferred Unlock - an overlapping second Shutdown therefore cannot see the emptied listener list and return nil while the first is still draining. (R8) the idle marker is set only on paths on which the connection writer holds no unflushed response (a connection with a buffered response has its next pipelined request waiting and is not idle; R4 accepts the skipped marker on exactly those paths). Not decided: Shutdown's poll loop and listener handling, liveness, interleavings.",
+	"C15": "Structural necessary conditions of graceful shutdown inside the serve loop, on every path: the per-connection idle marker is zero while the handler runs (so Shutdown's idle closer cannot close a busy connection), it is set non-zero after the response before the connection waits for the next request, the stop flag is tested after every response, and (R5) a response that was written into the connection writer is flushed before the writer is dropped whenever the serve function ends with a nil result (shutdown, client stopped sending) - so no answered request loses its response on a graceful end; (R6) in the shutdown code the Done channel is closed only under a false 'already closed' flag and the flag is raised after it, and wherever the channel reference is dropped the flag is lowered again on every path - otherwise the next Serve/Shutdown cycle of the same Server never closes its requests' Done channels; (E1) the open-connection counter Shutdown waits on is exact: ServeConn, serveConnCounted, serveConnCleanup and Serve each have the net effect on it that their contract states, on every path - a connection that is counted down twice lets Shutdown return nil while a handler is still running. (R7) ShutdownWithContext takes Server.mu once, before any return, and gives it back only through a deferred Unlock - an overlapping second Shutdown therefore cannot see the emptied listener list and return nil while the first is still draining. (R8) the idle marker is set only on paths on which the connection writer holds no unflushed response (a connection with a buffered response has its next pipelined request waiting and is not idle; R4 accepts the skipped marker on exactly those paths). (R9) ShutdownWithContext leaves its drain loop with success only on a path that tested the Server.open counter itself against zero - not a view of it corrected by the number of running Serve calls, which is zero while Serve still accepts. Not decided: the rest of Shutdown's poll loop and listener handling, liveness, interleavings.",
 	"C16": "Structural necessary conditions for timed-out handlers, on every path of the serve loop's timeoutResponse != nil branch: the response is written from a freshly acquired ctx into which the stored response was copied (R1); the timed-out ctx is never released to the pool by the loop (R2); no per-request field the loop stored on the old ctx is read from the fresh one (R3); (R6) the concurrency slot a timeout wrapper takes from Server.concurrencyCh is taken without blocking (429 otherwise), and it is given back only by code that has run the wrapped handler to its end - in the goroutine that calls it, after the call - exactly once; never by the wrapper's own frame, which returns when the timeout fires while the handler still runs; the semaphore field is read only by code that creates the channel when it is missing (a nil channel would turn every call into a 429); (R7) every bookkeeping field the serve function keeps on the ctx (connection id, connection time, request number, request time) is assigned on every path from each point where the ctx object is acquired or replaced to the handler dispatch, so requests served after a timed-out one see them. (R8) no exported RequestCtx method writes to the connection (acquireWriter, or Write on the ctx's conn, through module callees) unless it does so under the ctx's timeout lock after having found timeoutResponse nil, and the timeout response is installed under that same lock - a timed-out handler keeps using its ctx, and after the timeout only the serve loop may write; Not decided: what the late handler does with the old ctx, scheduling.",
-	"C17": "Structural necessary conditions of connection hijacking, on every path: the response is written and flushed before the hand-off unless HijackSetNoResponse is in effect (R1); after 'go hijackConnHandler' the serve function performs no I/O on the connection and releases neither ctx nor the handed-over reader (R3); it returns errHijacked exactly on hand-off paths (R4); hijackConnHandler closes the connection after the user's handler unless KeepHijackedConns and releases the ctx (R5); hijack state a handler put on the ctx without hijacking does not survive into a later request of the connection (R6); every method of the connection wrapper handed to the hijack handler takes data off the connection only through the buffered reader that still holds what the client sent with the hijacking request, never from the raw connection (R7); hijackConnHandler does not recycle the ctx while a connection the handler kept (KeepHijackedConns) still reads through it, which is the case under ReduceMemoryUsage, where the buffered reader reads through a field of the ctx (R8). (R9) every path into the hijack hand-off passes an unconditional SetDeadline(zero) on the connection after any deadline the serve function armed - per-request timeouts make every configuration test of 'is a deadline pending' wrong. Not decided: byte-exact hand-over of buffered data, callers' reaction to errHijacked.",
+	"C17": "Structural necessary conditions of connection hijacking, on every path: the response is written and flushed before the hand-off unless HijackSetNoResponse is in effect (R1); after 'go hijackConnHandler' the serve function performs no I/O on the connection and releases neither ctx nor the handed-over reader (R3); it returns errHijacked exactly on hand-off paths (R4); hijackConnHandler closes the connection after the user's handler unless KeepHijackedConns and releases the ctx (R5); hijack state a handler put on the ctx without hijacking does not survive into a later request of the connection (R6); every method of the connection wrapper handed to the hijack handler takes data off the connection only through the buffered reader that still holds what the client sent with the hijacking request, never from the raw connection (R7); hijackConnHandler does not recycle the ctx while a connection the handler kept (KeepHijackedConns) still reads through it, which is the case under ReduceMemoryUsage, where the buffered reader reads through a field of the ctx (R8). (R9) every path into the hijack hand-off passes an unconditional SetDeadline(zero) on the connection after any deadline the serve function armed - per-request timeouts make every configuration test of 'is a deadline pending' wrong. (R10) from a report of StateHijacked for a connection value no path leads, before that variable receives its next connection, to a routine that returns a connection wrapper to its pool with the same value (ServeConn, the worker loop). Not decided: byte-exact hand-over of buffered data, callers' reaction to errHijacked.",
 }
 
 func init() {
@@ -31,6 +31,7 @@ func init() {
 				hijackHandlerRule(p, r)
 				hijackReadPathRule(p, r)
 				hijackDeadlinesCleared(p, r)
+				wrapperNotRecycledAfterHandOff(p, r)
 			}
 			if id == "C11" {
 				resetCoverageRule(p, r)
@@ -63,6 +64,7 @@ func init() {
 			if id == "C15" {
 				doneChannelRule(p, r)
 				shutdownSerialised(p, r)
+				shutdownWaitsOnOpenCounter(p, r)
 				// Shutdown returns nil when Server.open reaches zero: the counter has to be exact (same obligations as C12's)
 				runC12x(p, r, true)
 			}
@@ -2692,4 +2694,192 @@ func closeFlagLoweredWithEntry(p *Prog, r *Report) {
 		}
 	}
 	r.Floor("R7", "stores lowering the close flag", n, 4)
+}
+
+// C15.R9: what ends Shutdown's drain loop with success is the open counter itself. s.open counts every connection
+// being served and one unit per running Serve call (the accept loop), so open == 0 means: no handler runs and Serve
+// has returned. Any corrected view of it (open minus the running Serve calls, as the monitoring getter reports)
+// reaches zero while Serve is still inside Accept and may still hand a connection to a worker.
+func shutdownWaitsOnOpenCounter(p *Prog, r *Report) {
+	fn := p.Func("(*Server).ShutdownWithContext")
+	if fn == nil {
+		r.Undecided("R9", "(*Server).ShutdownWithContext", "not found")
+		return
+	}
+	var isOpenLoad func(v ssa.Value, depth int) bool
+	isOpenLoad = func(v ssa.Value, depth int) bool {
+		c, ok := v.(*ssa.Call)
+		if !ok || depth > 2 {
+			return false
+		}
+		f := c.Call.StaticCallee()
+		if f == nil {
+			return false
+		}
+		if f.Name() == "Load" && len(c.Call.Args) == 1 {
+			fa, ok := c.Call.Args[0].(*ssa.FieldAddr)
+			return ok && typeNameOf(fa.X) == "Server" && fieldName(fa.X.Type(), fa.Field) == "open"
+		}
+		if !inModule(f) || f.Blocks == nil {
+			return false
+		}
+		nret := 0
+		for _, b := range f.Blocks {
+			for _, in := range b.Instrs {
+				if ret, ok := in.(*ssa.Return); ok {
+					nret++
+					if len(ret.Results) != 1 || !isOpenLoad(ret.Results[0], depth+1) {
+						return false
+					}
+				}
+			}
+		}
+		return nret > 0
+	}
+	isZero := func(v ssa.Value) bool {
+		c, ok := v.(*ssa.Const)
+		return ok && c.Value != nil && c.Value.ExactString() == "0"
+	}
+	drained := map[*ssa.BasicBlock]bool{}
+	for _, b := range fn.Blocks {
+		iff, ok := b.Instrs[len(b.Instrs)-1].(*ssa.If)
+		if !ok {
+			continue
+		}
+		bo, ok := iff.Cond.(*ssa.BinOp)
+		if !ok {
+			continue
+		}
+		good := (isOpenLoad(bo.X, 0) && isZero(bo.Y)) || (isOpenLoad(bo.Y, 0) && isZero(bo.X))
+		if !good {
+			continue
+		}
+		switch bo.Op {
+		case token.EQL, token.LEQ:
+			if len(b.Succs[0].Preds) == 1 {
+				drained[b.Succs[0]] = true
+			}
+		case token.NEQ, token.GTR:
+			if len(b.Succs[1].Preds) == 1 {
+				drained[b.Succs[1]] = true
+			}
+		}
+	}
+	n := 0
+	for _, b := range fn.Blocks {
+		for _, in := range b.Instrs {
+			c, ok := in.(*ssa.Call)
+			if !ok || c.Call.StaticCallee() == nil || c.Call.StaticCallee().Name() != "closeIdleConns" {
+				continue
+			}
+			n++
+			hit, path := reachAvoiding(fn, in, isReturn, func(i ssa.Instruction) bool {
+				if _, isSel := i.(*ssa.Select); isSel {
+					return true // the caller's context ended the wait: not a success
+				}
+				return drained[i.Block()] && i == i.Block().Instrs[0]
+			}, nil)
+			r.Check("R9", "ShutdownWithContext leaves its drain loop with success only after it found Server.open itself at zero", hit == nil, p.Pos(in.Pos()),
+				"a return is reachable from the drain loop without a test 'open counter == 0' on the counter itself: a value corrected by the number of running Serve calls is zero while Serve is still accepting, so Shutdown returns nil before Serve has returned and a connection accepted in that window is served after shutdown 'completed'", blocksString(p, path)...)
+		}
+	}
+	r.Floor("R9", "drain loop anchors (closeIdleConns calls) in ShutdownWithContext", n, 1)
+	r.Floor("R9", "tests of the open counter against zero in ShutdownWithContext", len(drained), 1)
+}
+
+// C17.R10: a hijacked connection belongs to the hijack handler, wrapper included. Where the server reports
+// StateHijacked for a connection value, no path leads on - before the variable is given the next connection - to a
+// routine that returns a connection wrapper to its pool with that same value: the wrapper (per-IP counter, closed
+// flag, embedded Conn) would be reset and reused for another client while the hijack handler still reads through it.
+func wrapperNotRecycledAfterHandOff(p *Prog, r *Report) {
+	isWrapper := func(t types.Type) bool {
+		if pt, ok := t.Underlying().(*types.Pointer); ok {
+			t = pt.Elem()
+		}
+		st, ok := t.Underlying().(*types.Struct)
+		if !ok {
+			return false
+		}
+		for i := 0; i < st.NumFields(); i++ {
+			if strings.HasSuffix(st.Field(i).Type().String(), "*"+rootPkg+".perIPConnCounter") {
+				return true
+			}
+		}
+		return false
+	}
+	hijackedConst := int64(-1)
+	if c, ok := constOfObj(p.byPath[rootPkg].Types, "StateHijacked"); ok {
+		if v, err := strconv.ParseInt(c.ExactString(), 10, 64); err == nil {
+			hijackedConst = v
+		}
+	}
+	recyclers := map[*ssa.Function]bool{}
+	for _, fn := range p.funcsIn("") {
+		allCalls(fn, func(b *ssa.BasicBlock, c ssa.CallInstruction) {
+			f := c.Common().StaticCallee()
+			if f == nil || f.Name() != "Put" || recvTypeName(f) != "Pool" || len(c.Common().Args) < 2 {
+				return
+			}
+			v := c.Common().Args[1]
+			if mi, ok := v.(*ssa.MakeInterface); ok {
+				v = mi.X
+			}
+			if isWrapper(v.Type()) {
+				recyclers[fn] = true
+			}
+		})
+	}
+	r.Floor("R10", "routines that return a connection wrapper to its pool", len(recyclers), 1)
+	nrep := 0
+	for _, fn := range p.funcsIn("") {
+		for _, b := range fn.Blocks {
+			for _, in := range b.Instrs {
+				rc, ok := in.(ssa.CallInstruction)
+				if !ok {
+					continue
+				}
+				args := rc.Common().Args
+				var connArg, stateArg ssa.Value
+				switch {
+				case rc.Common().StaticCallee() != nil && rc.Common().StaticCallee().Name() == "setState" && len(args) == 3:
+					connArg, stateArg = args[1], args[2]
+				case rc.Common().StaticCallee() != nil && rc.Common().StaticCallee().Name() == "connState" && len(args) == 3:
+					connArg, stateArg = args[1], args[2]
+				case rc.Common().StaticCallee() == nil && !rc.Common().IsInvoke() && len(args) == 2:
+					connArg, stateArg = args[0], args[1]
+				default:
+					continue
+				}
+				if k, isK := constInt(stateArg); !isK || k != hijackedConst {
+					continue
+				}
+				nrep++
+				// the search ends where the variable is given its next value (the next iteration's receive)
+				redef := map[ssa.Instruction]bool{}
+				if di, ok := connArg.(ssa.Instruction); ok {
+					redef[di] = true
+					if ex, ok := connArg.(*ssa.Extract); ok {
+						if ti, ok := ex.Tuple.(ssa.Instruction); ok {
+							redef[ti] = true
+						}
+					}
+				}
+				hit, path := reachAvoiding(fn, in, func(i ssa.Instruction) bool {
+					c, ok := i.(ssa.CallInstruction)
+					if !ok || c.Common().StaticCallee() == nil || !recyclers[c.Common().StaticCallee()] {
+						return false
+					}
+					for _, a := range c.Common().Args {
+						if a == connArg {
+							return true
+						}
+					}
+					return false
+				}, func(i ssa.Instruction) bool { return redef[i] }, nil)
+				r.Check("R10", funcName(fn)+": the connection reported hijacked is not handed to a routine that recycles its wrapper", hit == nil, p.Pos(in.Pos()),
+					"after StateHijacked was reported for this connection value a call that returns its wrapper to the pool is reachable with the same value: the hijack handler still owns the connection, and the recycled wrapper is reset and reused for the next accepted connection while the handler reads and writes through it", blocksString(p, path)...)
+			}
+		}
+	}
+	r.Floor("R10", "reports of StateHijacked", nrep, 2)
 }
